@@ -22,7 +22,7 @@ claim('C01', 'interprocedural must-check / fail-closed gate analysis on SSA (edg
       'notation.Verify hands the verifier the required-metadata map, artifact reference and plugin configuration of its own caller (option forwarding at the API boundary: no common field of the two option structs is left at its zero value); failures stored in outcome.Error are sticky; integrity is enforce in every non-skip level literal and cannot be overridden; no map update, delete or clear on the verification call tree targets a map of the caller (the required metadata checked for one signature is what is checked for the next). This is a necessary structural condition of the property for every envelope, '
       'descriptor, metadata map and level at once; the blob descriptor the comparison uses is made by a generator that digests the whole reader (C07 blob-descriptor/generator-body, re-decided under C01 keys); it does not establish cryptographic validity (trusted: notation-core-go).', 'DESIGN.md 2/C01')
 
-claim('C02', 'typestate + must-check gate analysis on SSA, finite decision table of the predicate, who-may-read inventories, constant-table order',
+claim('C02', 'typestate + must-check gate analysis on SSA, finite decision table of the predicate, who-may-read / who-may-write inventories (validation results), value provenance of the level, constant-table order',
       'Static, all-paths: the critical-failure predicate is exactly Action==enforce && Error!=nil; every validation result appended to the outcome (and every later store to its Error) is gated by that predicate on all '
       'paths to success; each result carries the action of its own type from the applicable level; the level stored into an outcome or returned is result 0 of GetVerificationLevel applied to the SignatureVerification of a statement that comes only from the document selection (no level looked up by statement name or fixed); overrides go into a fresh map behind the legality gates; a recorded failure is never erased (a validation result a function did not create is written only by a store of a provably non-nil error, never overwritten as a whole, and the list of results is only extended); every plugin situation (missing, too old, no capability, '
       'execution error, missing/failed verdict) is fail-closed; native identity/revocation checks are routed by capability and skip; critical extended attributes are accounted for when no plugin is named and when the '
@@ -77,7 +77,7 @@ claim('C11', 'interprocedural ownership/origin analysis of every write on the si
       '(hex sha256 of every chain certificate, signing time, and nothing written into the returned map afterwards can replace them); digest pinning on the very string resolved, reserved-prefix and existing-key refusals and the merge error gate precede Sign; the repository is used for exactly one Resolve and one PushSignature; PushSignature is reachable only after Signer.Sign and the annotation generator succeeded (every fallible source of the thumbprint / created annotations error-checked) and SignOCI reports success only after PushSignature did. '
       'Necessary conditions for "signing twice succeeds twice" for every descriptor, metadata map and reference; repository and signer internals are trusted.', 'DESIGN.md 2/C11')
 
-claim('C12', 'panic-site inventory with local discharge proofs (guards, filter/producer summaries, correlated nil-check tracking) + outcome/error consistency + size-cap gates + error-discipline lint',
+claim('C12', 'panic-site inventory with local discharge proofs (guards, filter/producer summaries, correlated nil-check tracking, label-consistent path search for nil-edged pointer phis) + outcome/error consistency + size-cap gates + error-discipline lint',
       'Static: every non-comma-ok type assertion, slice/string index and slice expression, dereference of the nilable-by-API pointers and of pointers that come out of decoded external data (elements of maps/slices of pointers to JSON structs, pointer fields of JSON structs: nil test required, comma-ok does not count) and of pointer/interface parameters that the function itself compares with nil, dereference of a local pointer that is nil on one way in (a pointer phi with a nil-constant edge: no dereference reachable from that edge on a path consistent with the facts of the edge; a search that cannot come back empty is discharged at the call sites), call through a nilable verifier field, MustCompile, map update and explicit panic in the product packages is '
       'enumerated and discharged by a proof visible in the code (dominating guard, loop induction over the same/equal-length slice, producer filter summary, constructor post-condition) or by a table line with reason; the two verifier methods '
       'return (outcome, nil) only on paths no error store reaches and otherwise the error just stored; every FetchAll / ReadAll of fetched content is cut by a positive cap on the descriptor fetched (also when the fetch sits in a helper); the compiler-inserted range-over-func misuse panics are exempt only when every ranged iterator comes from outside the module; no decoder error is dropped. '
@@ -103,7 +103,7 @@ claim('C16', 'taint analysis with certified sanitizers (regexp/syntax certificat
       'Static, all-paths: every path handed to the plugin file system by the manager (Get, Install, Uninstall) has as non-constant leaves exactly the SSA values that a dominating, fail-closed validation accepted, where a validator counts only if its success implies the '
       'certified single-component file-name predicate (no separator, NUL, empty, ".", ".."); deletion only happens on such a path; the verifier passes the signature-supplied name only to Manager.Get; listing reports an entry only for a non-root, directory, non-symlink '
       'DirEntry type, and conversely every way through the listing callback records the name of an entry that is a real directory other than the root, and the callback answers fs.SkipDir only for a directory and never fs.SkipAll (no plugin directory is dropped from the listing), and a walk error other than not-exist is handed back: a failed walk is never reported as a complete listing. Holds for every name string at once; also analysed under GOOS=windows in the thorough tier. What the OS does with a validated single component is trusted.', 'DESIGN.md 2/C16')
-claim('C17', 'typestate of the exec.Cmd object (dominating unconditional stores) + must-check gates + guarded error-mapping table + who-may-call',
+claim('C17', 'typestate of the exec.Cmd object (dominating unconditional stores) + must-check gates + guarded error-mapping table + who-may-call + effect denylist over the process runner call tree',
       'Static: decides the structural preconditions of containment — the only process start is exec.CommandContext with the caller\'s context; before Run, unconditionally, Stdout and Stderr are the module\'s limited writer with a positive constant cap, WaitDelay is a positive constant '
       'and Stdin is the request; the limited writer forwards only with a positive remaining budget, at most that budget, and accounts every forwarded byte (remaining counter or written counter); the runner succeeds only on process success and a whole-buffer json.Unmarshal of stdout; the three failure mappings and all metadata gates (incl. name == plugin name) are fail-closed, and every failing exit of the process runner after Run hands on the captured stderr (Bytes() of the buffer behind cmd.Stderr) so that the structured error the plugin printed can be reported; the runner\'s call tree performs no operation os/exec does not bound (no pipe of its own, no Read/Write on files or reader/writer interfaces, no io.Copy family, no sleep, no bare channel receive, no select without the context\'s Done channel); a one-step helper that runs the command it is handed stands for Run when its success lies behind the nil result of the run. '
       'NOT decided: real timing and memory, which follow from os/exec semantics (trusted).', 'DESIGN.md 2/C17')
